@@ -40,6 +40,8 @@ type Mismatch struct {
 	OrigLine  string `json:"orig_line,omitempty"`
 	OrigGo    string `json:"orig_go,omitempty"`
 	OrigModel string `json:"orig_model,omitempty"`
+	// the concrete line (with the choices observed in that execution) the model was given
+	ModelLine string `json:"model_line,omitempty"`
 }
 
 type OracleFail struct {
@@ -55,16 +57,19 @@ type Report struct {
 	Cases       int    `json:"cases"`
 	CorpusCases int    `json:"corpus_cases"`
 	// Hang: the line on which the real code did not return within the per-case deadline (the run stops there)
-	Hang         string         `json:"hang,omitempty"`
-	Distinct     int            `json:"distinct"`
-	Tags         map[string]int `json:"tags"`
-	Kinds        int            `json:"kinds"`
-	MinKinds     int            `json:"min_kinds"`
-	Degenerate   bool           `json:"degenerate"`
-	Mismatches   []Mismatch     `json:"mismatches"`
-	OracleFails  []OracleFail   `json:"oracle_fails"`
-	Samples      []string       `json:"samples"`
-	DriverFailed string         `json:"driver_failed,omitempty"`
+	Hang       string         `json:"hang,omitempty"`
+	Distinct   int            `json:"distinct"`
+	Tags       map[string]int `json:"tags"`
+	Kinds      int            `json:"kinds"`
+	MinKinds   int            `json:"min_kinds"`
+	Degenerate bool           `json:"degenerate"`
+	Mismatches []Mismatch     `json:"mismatches"`
+	// Unreproduced: disagreements that none of ten re-executions of the same line showed again (the complete
+	// case is kept for analysis; it does not count as a disagreement)
+	Unreproduced []Mismatch   `json:"unreproduced,omitempty"`
+	OracleFails  []OracleFail `json:"oracle_fails"`
+	Samples      []string     `json:"samples"`
+	DriverFailed string       `json:"driver_failed,omitempty"`
 }
 
 func hx(b []byte) string {
@@ -307,6 +312,25 @@ func runView(v View, seed uint64, n int, driver, corpusDir string) *Report {
 			break
 		}
 		if modelOuts[i] != goOuts[i] && len(rep.Mismatches) < 20 {
+			// Does it happen again? Some choices the real code makes (map iteration order) differ from execution to
+			// execution and are reconstructed by the view; a disagreement counts when one of ten further executions of
+			// the same line shows one too.
+			again := false
+			for try := 0; try < 10 && !again; try++ {
+				g, _, _, ml := safeExecModel(v, lines[i])
+				if hangLine != "" {
+					rep.Hang = hangLine
+					return rep
+				}
+				m, err := runDriver(driver, []string{ml})
+				again = err != nil || len(m) != 1 || m[0] != g
+			}
+			if !again {
+				if len(rep.Unreproduced) < 5 {
+					rep.Unreproduced = append(rep.Unreproduced, Mismatch{Line: lines[i], OrigGo: goOuts[i], OrigModel: modelOuts[i], ModelLine: modelLines[i]})
+				}
+				continue
+			}
 			small := lines[i]
 			if len(rep.Mismatches) < shrinkBudget {
 				small = shrink(v, lines[i], func(c string) bool {
